@@ -28,6 +28,10 @@ heaps, all operation lists and both back ends:
 * (c) `c19_text_tree_posting_merges` – both change an `IFBTree` posting at different docids: the
   `_wordinfo` key (the same reference stored again by both) and the tree object merge, and the merged
   tree carries both changes.
+
+The full conflict-or-serial theorem for the text index (all bases satisfying the object-level
+C03 / C06 invariant, all operation lists on disjoint docids, both back ends, any `DICT_CUTOFF`) is
+`c19_text_conflict_or_serial` in `Properties/C19TextFull.lean`.
 -/
 set_option linter.unusedSectionVars false
 namespace Hyp.CIdx
